@@ -169,12 +169,17 @@ func main() {
 			}
 		}
 	}
+	// extra file for package vuego (root package of the module): cache reset hooks for harnesses.
+	// It goes through the same sync rewrite as the package's own files when needed.
+	if hooks := filepath.Join(*shim, "vuegohooks", "zverif_hooks.go.src"); fileExists(hooks) {
+		overlay[filepath.Join(*repo, "zverif_hooks.go")] = hooks
+	}
 	ov, _ := json.MarshalIndent(map[string]any{"Replace": overlay}, "", " ")
 	must(os.WriteFile(filepath.Join(*out, "overlay.json"), ov, 0o644))
 	sort.Slice(sites, func(i, j int) bool { return sites[i].ID < sites[j].ID })
 	sj, _ := json.MarshalIndent(sites, "", " ")
 	must(os.WriteFile(filepath.Join(*out, "sites.json"), sj, 0o644))
-	fmt.Printf("vinstr: %d files rewritten, %d map-order sites\n", len(overlay)-3, len(sites))
+	fmt.Printf("vinstr: %d files rewritten, %d map-order sites\n", len(overlay)-4, len(sites))
 }
 
 type rewriter struct {
@@ -463,6 +468,11 @@ func addImport(f *ast.File, path, name string) {
 	gd := &ast.GenDecl{Tok: token.IMPORT, Specs: []ast.Spec{spec}}
 	f.Decls = append([]ast.Decl{gd}, f.Decls...)
 	f.Imports = append(f.Imports, spec)
+}
+
+func fileExists(p string) bool {
+	_, err := os.Stat(p)
+	return err == nil
 }
 
 func must(err error) {
